@@ -14,6 +14,7 @@ table = [  # (property, subject substring, what failed)
  ("C13", "Stat and Backup work on segments whose index", 'Log.Stat (and FindByCount/FindBySize, Log.Backup) failed with "no such file or directory" after an index file was lost, until the segment had been read (findings/C13-stat-missing-index.json, findings/C11-stat-missing-index.json)'),
  ("C15", "FindByAge on a log without messages", "FindByAge/TrimByAge failed with ErrInvalidOffset on a log without messages (findings/C15-findbyage-empty-log.json)"),
  ("C05", "a tail delete creates the new head segment", "tail delete of the head: the rewritten segment was swapped in before the new empty head (named after NextOffset) existed; a crash in between made Open(Recover) report a NextOffset below the one already returned (findings/C05-tail-delete-next-moved-back.json)"),
+ ("C05", "Recover removes a segment that a delete had replaced", "rebasing delete (the lowest message of a segment deleted, the rewrite gets the name of its new first offset): Rename(new) is followed by Remove(old); a crash or power loss after any step from the first rename up to the removal of the old index left two segment files holding the same offsets, Open(Recover) succeeded but Consume, Get, lookups and Stat of the reopened log disagreed; listed as known finding (8 C05 + 4 C06 signatures ...|in=delete|last={rename(log.rewrite->log),rename(index.rewrite->index),fsyncdir,remove(index)}|symptom=overlapping-segments[|depth2]) until it was repaired (findings/C05-known-rebase-overlap.json, findings/C05-known-rebase-overlap-depth2.json, findings/C06-known-rebase-overlap.json)"),
  ("C06", "Recover handles a head log shorter than a file header", 'a head log of 1-7 bytes (first V1 record torn inside its first 8 bytes, or torn V2 header) made Open(Recover) fail for good with "log corrupted: reading header: EOF" (findings/C06-recover-fails-on-short-log.json)'),
  ("C07", "a record header cut short by the end of the file", "a tail shorter than a record header was read as clean end of file (ReadAt returns io.EOF with n>0, the code tested io.ErrUnexpectedEOF): Check passed, Recover kept the fragment, the next Publish buried it (seen as C05 torn|in=pub|last=append(log)|symptom=check-after-append-failed and scan-after-append)"),
  ("C05", "Recover removes a stale .recover file", "a crash during Recover left <seg>.log.recover, which the next Recover appended to: duplicated records behind a stale copy (seen as C05 ...|symptom=second-recover-changed|depth2 and scan-error|did-not-terminate|depth2)"),
